@@ -1,5 +1,6 @@
 #!/bin/bash
 # runs every check's thorough command in turn (used with `vp run`); prints one summary line per property
+if [ -n "${VP_RUN_REPO:-}" ]; then export VERIF_REPO=$VP_RUN_REPO; echo "using repo snapshot $VERIF_REPO"; fi
 python3 check.py --setup 2>&1 | tail -2
 for p in C17 C04 C16 C19 C02 C03 C07 C08 C09 C10 C11 C13 C14 C01 C12 C18 C06 C20 C15 C05; do
   echo "=== $p $(date +%H:%M:%S)"
